@@ -17,7 +17,7 @@ from typing import List, Optional, Tuple
 
 from ..astq import assignments, calls, kwarg, params, stmts
 from ..callgraph import fkey
-from ..cfg import cond_atoms, flatten_conj
+from ..cfg import CFG, cond_atoms, flatten_conj
 from ..regexlang import MAXREPEAT, sre_parse
 from ..report import Check
 from ..source import AnalysisError, Project, ancestors, body_walk, dotted, enclosing_stmt, last_attr, norm, parent, short
@@ -33,10 +33,63 @@ def run(chk: Check, proj: Project) -> None:
     chk.trusted_base = ["DebugLexer(text[a:b]).tokenize() reports positions and line numbers relative to the slice it was given"]
     m, f = proj.func("util.template_parser", "parse_template")
     chk.analysed(fkey(m, f))
+    if not s7_fresh_lexer(chk, proj, m, f):
+        return
     s1_s3(chk, proj, m, f)
     s4(chk, proj, m, f)
     s5(chk, proj)
     s6(chk, proj, m, f)
+    s8_patch_installed(chk, proj)
+
+
+def s7_fresh_lexer(chk: Check, proj: Project, m, f) -> bool:
+    chk.rule("S7", "each hand-over round lexes its remaining text with a FRESH stock lexer built from that slice (Lexer objects carry state - `verbatim` - from the END of the text they lexed, not from the hand-over point)")
+    lex = [c for c in calls(f) if last_attr(c.func) in ("DebugLexer", "Lexer")]
+    tok = [c for c in calls(f) if isinstance(c.func, ast.Attribute) and c.func.attr == "tokenize"]
+    loops = [x for x in body_walk(f) if isinstance(x, ast.While)]
+    if not lex or not tok or not loops:
+        raise AnalysisError("parse_template: stock lexer construction / tokenize() / hand-over loop not found")
+    loop = loops[0]
+    inside = lambda n: any(a is loop for a in ancestors(n))  # noqa: E731
+    ok = all(inside(c) for c in lex) and all(inside(c) for c in tok)
+    retarget = [s2 for s2 in stmts(f) if isinstance(s2, ast.Assign) and isinstance(s2.targets[0], ast.Attribute) and s2.targets[0].attr == "template_string"]
+    ok = ok and not retarget
+    chk.ob("S7", "util.template_parser:parse_template:fresh-lexer-per-round", m.loc((retarget or lex)[0]), ok,
+           "the stock lexer is constructed inside the hand-over loop from the remaining slice" if ok else
+           f"the stock lexer is created once and re-pointed (`{short(retarget[0]) if retarget else short(enclosing_stmt(lex[0]))}`): tokenize() leaves `verbatim` as it was at the END of the previous text, so after a hand-over inside/before an unterminated or oddly closed verbatim block all following tags are emitted as TEXT")
+    return ok
+
+
+def s8_patch_installed(chk: Check, proj: Project) -> None:
+    chk.rule("S8", "the lexer patch is in place before any template can be compiled: ready() patches Template before it imports user modules; patching a class installs compile_nodelist unconditionally (an inherited 'already patched' flag must not skip it)")
+    am, af = proj.func("apps", "ComponentsConfig.ready")
+    chk.analysed(fkey(am, af))
+    cfg = CFG(af)
+    patch = [c for c in calls(af, "monkeypatch_template_cls")]
+    importers = [c for c in calls(af) if last_attr(c.func) in ("import_libraries", "autodiscover", "_watch_component_files_for_autoreload")]
+    if len(patch) != 1 or len(importers) < 2:
+        chk.undecided("S8", "apps:ready:shape", am.loc(af), f"{len(patch)} patch calls, {len(importers)} importing calls")
+    else:
+        pn = cfg.node_containing(patch[0])
+        dom = cfg.dominators()
+        late = [c for c in importers if not any(p_ in dom.get(x, set()) for x in cfg.node_containing(c) for p_ in pn)]
+        chk.ob("S8", "apps:ready:patch-before-imports", am.loc(late[0]) if late else am.loc(patch[0]), not late,
+               "monkeypatch_template_cls(Template) dominates import_libraries() / autodiscover()" if not late else
+               f"`{short(late[0])}` runs before Template is patched: a module imported there that builds a Template at import time has it lexed by stock Django (a `%}}` inside a quoted tag argument ends the tag)")
+    mm, mf = proj.func("util.django_monkeypatch", "monkeypatch_template_cls")
+    chk.analysed(fkey(mm, mf))
+    inst = [c for c in calls(mf, "monkeypatch_template_compile_nodelist")]
+    ok = len(inst) == 1 and enclosing_stmt(inst[0]) in mf.body and not any(isinstance(x, (ast.Return, ast.Raise)) for st in mf.body[: mf.body.index(enclosing_stmt(inst[0]))] for x in ast.walk(st))
+    chk.ob("S8", "util.django_monkeypatch:monkeypatch_template_cls:installs-compile_nodelist-unconditionally", mm.loc(inst[0]) if inst else mm.loc(mf), ok,
+           "compile_nodelist is installed for every class handed in" if ok else
+           "the compile_nodelist patch can be skipped (early return / condition before it): a Template subclass that inherits the `_djc_patched` flag but defines its own compile_nodelist keeps the stock lexer while counting as patched")
+    cm, cf = proj.func("util.django_monkeypatch", "monkeypatch_template_compile_nodelist")
+    st = [x for x in stmts(cf) if isinstance(x, ast.Assign) and isinstance(x.targets[0], ast.Attribute) and x.targets[0].attr == "compile_nodelist"]
+    ok2 = len(st) == 1 and st[0] in cf.body
+    chk.ob("S8", "util.django_monkeypatch:monkeypatch_template_compile_nodelist:store-unconditional", cm.loc(st[0]) if st else cm.loc(cf), ok2, "template_cls.compile_nodelist is assigned at function level")
+    inner = next((x for x in cf.body if isinstance(x, ast.FunctionDef)), None)
+    ok3 = inner is not None and any(last_attr(c.func) == "parse_template" for c in calls(inner)) and not any(last_attr(c.func) in ("Lexer", "DebugLexer") for c in calls(inner))
+    chk.ob("S8", "util.django_monkeypatch:_compile_nodelist:uses-parse_template", cm.loc(inner) if inner is not None else cm.loc(cf), ok3, "the installed compile_nodelist obtains its tokens from parse_template (never from a stock lexer)")
 
 
 def s6(chk: Check, proj: Project, m, f) -> None:
